@@ -42,7 +42,7 @@ def tfx_cases():
 
 def universe():
     u = common.jj_cases(6000, "hostile", FOUR) + common.jj_cases(3000, "lintable", FOUR) + common.jj_cases(900, "guarded", ("ansi",))
-    u += common.py_cases(1500) + common.py_cases(500, True) + common.ph_cases(1500) + common.ph_cases(600, True)
+    u += common.py_cases(1500) + common.py_cases(500, True) + common.py2_cases(600) + common.ph_cases(1500) + common.ph_cases(600, True)
     u += tfx_cases()
     return u
 
